@@ -29,7 +29,7 @@ Definition check := ViewsCheck.check gen_cfg.
 """
 
 DEPS = ["Base/Val.v", "Base/Expr.v", "Base/Sort.v", "Sql/Block.v", "Sql/Norm.v",
-        "C13/Query.v", "C13/Splice.v", "C13/Session.v", "C13/ViewsCheck.v"]
+        "C13/Query.v", "C13/Splice.v", "C13/Session.v", "C13/Wrap.v", "C13/ViewsCheck.v"]
 
 BASE = {
     "frames": [
@@ -46,6 +46,8 @@ SIG_STALE = "C13/stale-schema-cache-after-reregistering-with-different-columns"
 SIG_HIJACK = "C13/user-cte-named-like-registered-view-is-hijacked"
 SIG_CAPTURE = "C13/user-cte-name-captures-cte-embedded-in-view-chain"
 SIG_STAR = "C13/select-star-over-uncached-table-keeps-star-column"
+SIG_DUPCTE = "C13/identical-select-texts-in-one-query-give-duplicate-cte-name"
+SIG_UNRESOLVED = "C13/unqualified-column-over-uncached-table-unresolvable-once-schema-cache-nonempty"
 
 
 # ---- expressions ---------------------------------------------------------------------------------------
@@ -279,14 +281,21 @@ class HGen:
             kc = r.choice(list(cols))
             keys = [(kc, kc)]
             out[kc] = cols[kc]
-        aggs = [("count", None, "n")]
-        out["n"] = "int"
-        if ints and r.random() < 0.7:
-            aggs.append(("sum", r.choice(ints), "sm"))
-            out["sm"] = "int"
-        if r.random() < 0.2:
-            aggs = aggs[1:] or aggs
-            out = {k: v for k, v in out.items() if k in [a for _, a in keys] + [a for _, _, a in aggs]}
+
+        def alias(base):
+            a = base
+            while a in out:
+                a += "2"
+            return a
+        aggs = []
+        if not (ints and r.random() < 0.2):
+            a = alias("n")
+            aggs.append(("count", None, a))
+            out[a] = "int"
+        if ints and (not aggs or r.random() < 0.7):
+            a = alias("sm")
+            aggs.append(("sum", r.choice(ints), a))
+            out[a] = "int"
         return ("agg", frm, w, keys, aggs), out
 
     def gen_join(self, lsrc, rsrc):
@@ -405,6 +414,7 @@ class HGen:
     # -- shape flags of a query against the current state (what the known-finding signatures are made of)
     def classify_sql(self, q):
         cte_names = [n.lower() for n, _ in q["ctes"]]
+        ctes = {n.lower(): b for n, b in reversed(q["ctes"])}
         refs = [n.lower() for _, b in q["ctes"] for n in sq_names(b)] + [n.lower() for n in sq_names(q["main"])]
         view_refs = [n for n in refs if n in self.views]
         real_view_refs = [n for n in view_refs if n not in cte_names]
@@ -414,16 +424,60 @@ class HGen:
             if any(c in self.views[n]["embedded"] for c in cte_names):
                 return SIG_CAPTURE
         for n in real_view_refs:
-            if n in self.cache and self.cache[n] != list(self.views[n]["cols"]):
+            if self.cache.get(n) and self.cache[n] != list(self.views[n]["cols"]):
                 return SIG_STALE
         for n in real_view_refs:
             if self.views[n]["taint"]:
                 return self.views[n]["taint"]
+
+        # what sqlglot's qualify can know about the columns of a source
+        order = [n.lower() for n, _ in q["ctes"]]
+
+        def info(n, depth=0):
+            # a CTE body sees the CTEs defined before it; `depth` = how many CTEs of the list are visible
+            vis = order[: len(order) - depth] if depth else order
+            if n in vis:
+                k = max(i for i, m in enumerate(order) if m == n and i < len(vis))
+                return out_cols(q["ctes"][k][1], len(order) - k)
+            return self.cache.get(n) or None
+
+        def out_cols(sq, depth=0):
+            if sq[0] == "agg":
+                return [a for _, a in sq[3]] + [a for _, _, a in sq[4]]
+            return [a for _, a in sq[3]] if sq[3] is not None else from_cols(sq[1], depth)
+
+        def from_cols(f, depth=0):
+            if f[0] == "name":
+                return info(f[1].lower(), depth)
+            if f[0] == "unit":
+                return []
+            if f[0] == "sub":
+                return out_cols(f[1], depth)
+            a, b = from_cols(f[1], depth), from_cols(f[3], depth)
+            return None if a is None or b is None else [f[2] + "." + c for c in a] + [f[4] + "." + c for c in b]
+
+        def unresolved(sq):
+            f = sq[1]
+            if sq[0] == "sel":
+                refs_ = [c for x in sq[2] for c in rel.e_cols(x)] + [c for e, _ in (sq[3] or []) for c in rel.e_cols(e)]
+            else:
+                refs_ = [c for x in sq[2] for c in rel.e_cols(x)] + [c for c, _ in sq[3]] + [c for fn, c, _ in sq[4] if fn == "sum"]
+            here = f[0] in ("name", "sub") and from_cols(f) is None and bool(refs_)
+            inner = [f[1]] if f[0] == "sub" else [x[1] for x in (f[1], f[3]) if x[0] == "sub"] if f[0] == "join" else []
+            return here or any(unresolved(i) for i in inner)
+
+        texts = [sq_sql(b).lower() for _, b in q["ctes"]] + [sq_sql(q["main"]).lower()]
+        if len(set(texts)) < len(texts):
+            return SIG_DUPCTE
+        names_real = [n for n in refs if n not in cte_names and n not in self.views and n in BASE["tables"]]
+        if self.cache and names_real and (unresolved(q["main"]) or any(unresolved(b) for _, b in q["ctes"])):
+            return SIG_UNRESOLVED
+
         # `SELECT *` directly over a real table the schema cache does not know
         def star_over_uncached(sq):
             if sq[0] == "sel" and sq[3] is None and sq[1][0] == "name":
                 n = sq[1][1].lower()
-                return n not in cte_names and n not in self.views and n not in self.cache and n in BASE["tables"]
+                return n not in cte_names and n not in self.views and not self.cache.get(n) and n in BASE["tables"]
             return False
         if star_over_uncached(q["main"]):
             return SIG_STAR
@@ -438,6 +492,10 @@ class HGen:
                 emb |= self.views[n]["embedded"]
         return emb
 
+    @staticmethod
+    def hsig(hd):
+        return hd["taint"] or (SIG_STAR if hd["star"] else None)
+
     def push(self, cols, embedded=(), star=False, taint=None, ok=True):
         self.heap.append({"cols": cols, "ok": ok and cols is not None, "embedded": set(embedded), "star": star, "taint": taint})
 
@@ -446,7 +504,7 @@ class HGen:
         k = r.random()
         live = [i for i, h in enumerate(self.heap) if h["ok"]]
         first = not self.steps
-        if first and k < 0.75 or k < 0.3:
+        if first and k < 0.75 or k < 0.2:
             # register / re-register
             key = r.choice(self.keys)
             if self.views and r.random() < 0.35:
@@ -459,9 +517,12 @@ class HGen:
             self.views[key] = {"cols": dict(hd["cols"]), "embedded": set(hd["embedded"]), "star": hd["star"], "taint": sig}
             if not hd["star"] and key not in self.cache:
                 self.cache[key] = list(hd["cols"])
+            if hd["star"] and key in self.cache and not hd["taint"]:
+                sig = None      # add_table returns early: no exception; the view itself is fine
+                self.views[key]["taint"] = None
             self.emit(["reg", name, h], f"(SReg {strlit(name)} {natlit(h)})", "reg", sig, f"heap[{h}].createOrReplaceTempView({name!r})")
             return
-        if k < 0.68:
+        if k < 0.64:
             g = self.gen_query()
             if g is None:
                 return
@@ -472,32 +533,33 @@ class HGen:
             self.emit(["sql", text], f"(SSql {query_coq(q)})", "sql", sig, f"session.sql({text!r})")
             self.push(out, self.embedded_of(q), star=star, taint=sig if sig != SIG_STAR else None)
             return
-        if k < 0.78:
+        if k < 0.74:
             cand = list(self.views) * 4 + ["bt", "zz"]
             key = r.choice(cand)
             name = self.spell(key) if key in VARIANTS else key
             if key in self.views:
                 v = self.views[key]
                 self.push(dict(v["cols"]), v["embedded"], star=v["star"], taint=v["taint"])
-                sig = v["taint"]
+                sig = self.hsig(v)
             elif key == "bt":
                 self.push(dict(zip(BASE["tables"]["bt"]["cols"], BASE["tables"]["bt"]["types"])))
                 self.cache.setdefault("bt", list(BASE["tables"]["bt"]["cols"]))
                 sig = None
             else:
                 self.push(None)
+                self.cache.setdefault(key, [])
                 sig = None
             self.emit(["table", name], f"(STable {strlit(name)})", "table", sig, f"session.table({name!r})")
             return
-        if k < 0.86 and live:
+        if k < 0.83 and live:
             h = r.choice(live)
             hd = self.heap[h]
             e = self.eg.bool_e(hd["cols"], 1)
-            self.emit(["where", h, e_sql(e)], f"(SWhere {natlit(h)} {rel.e_coq(e)})", "where", hd["taint"],
+            self.emit(["where", h, e_sql(e)], f"(SWhere {natlit(h)} {rel.e_coq(e)})", "where", self.hsig(hd),
                       f"heap[{h}].where({e_sql(e)!r})")
             self.push(dict(hd["cols"]), hd["embedded"], star=hd["star"], taint=hd["taint"])
             return
-        if k < 0.93 and live:
+        if k < 0.92 and live:
             # join back: a derived frame with an earlier one on a shared int column
             derived = [i for i in live if i >= len(BASE["frames"])] or live
             h1 = r.choice(derived)
@@ -524,7 +586,7 @@ class HGen:
             return
         h = r.randrange(len(self.heap))
         hd = self.heap[h]
-        self.emit(["obs", h], f"(SObs {natlit(h)})", "obs", hd["taint"], f"heap[{h}].collect()")
+        self.emit(["obs", h], f"(SObs {natlit(h)})", "obs", self.hsig(hd), f"heap[{h}].collect()")
 
     def emit(self, wstep, cstep, kind, sig, text):
         self.steps.append(wstep)
@@ -533,7 +595,7 @@ class HGen:
 
     def history(self):
         self.new()
-        n = self.r.randint(2, self.maxlen)
+        n = self.r.choice([2] + list(range(3, self.maxlen + 1)) * 2)
         tries = 0
         while len(self.steps) < n and tries < 40:
             tries += 1
@@ -557,6 +619,11 @@ CORPUS = [
      ("sqlq", {"ctes": [], "main": ("sel", ("join", ("name", "v"), "x", ("name", "W"), "y", ("bin", "Eq", ("col", "x.a"), ("col", "y.a"))), [],
                                     [(("col", "x.a"), "a"), (("col", "y.s"), "s")], False)}),
      ("joinb", 5, 0, "a", ["b"]), ("where", 5, ("bin", "Gt", ("col", "a"), ("lit", 1))), ("reg", "v", 6), ("obs", 5)],
+    [("reg", "v", 0), ("sqlq", {"ctes": [], "main": ("sel", ("name", "bt"), [], [(("col", "a"), "a")], False)})],
+    [("reg", "v", 0), ("sqlq", {"ctes": [("c1", ("sel", ("name", "v"), [], [(("col", "a"), "a")], False))],
+                                "main": ("sel", ("name", "v"), [], [(("col", "a"), "a")], False)})],
+    [("reg", "v", 0), ("reg", "v", 1), ("sqlq", {"ctes": [], "main": ("sel", ("name", "v"), [], None, False)}),
+     ("sqlq", {"ctes": [], "main": ("sel", ("name", "v"), [], [(("col", "a"), "a"), (("col", "s"), "s")], False)})],
 ]
 
 
@@ -683,7 +750,9 @@ def run(ctx: core.Ctx):
         t1_ok = False
         ctx.gen("C13Facts", open(core.VERIF + "/translate/c13_facts_pinned.v").read())
     # ---- proofs
+    ctx.log("T1 done")
     proved = ctx.prove([ctx.build + "/gen/C13Facts.v"] + ([core.COQ + "/props/C13.v"] if t1_ok else []), dep_theories=DEPS)
+    ctx.log("proofs checked" if proved else "proofs FAILED")
     # ---- T3
     rnd = random.Random(ctx.seed)
     quick = ctx.tier == "quick"
@@ -698,7 +767,9 @@ def run(ctx: core.Ctx):
             continue
         seen.add(key)
         hs.append(h)
-    res = run_workers(hs, 6)
+    ctx.log(f"{len(hs)} histories generated")
+    res = run_workers(hs, 8)
+    ctx.log("implementation and engine oracle ran")
     items, kept = [], []
     for h, r in zip(hs, res):
         if isinstance(r, dict):
@@ -711,16 +782,31 @@ def run(ctx: core.Ctx):
             ctx.broken("T3:value-not-exportable", str(ex), data=h["steps"])
     ctx.log(f"{len(items)} histories, {sum(len(h['steps']) for h, _ in kept)} steps")
     verdicts = ctx.cases("c13", HEADER, items, per_file=14 if quick else 40, result_ty="str", fn="check")
-    n_steps = n_dom = n_nontriv = n_dev = 0
+    n_steps = n_dom = n_nontriv = n_dev = n_skipped = 0
     hist_kind, hist_len, hist_shape, hist_err, hist_sig = {}, {}, {}, {}, {}
     model_fail, engine_fail, thm_fail = [], [], []
+    nbase = len(BASE["frames"])
     for (h, r), it, v in zip(kept, items, verdicts):
         if v is None or len(v) != 5 * len(h["steps"]):
             continue
         hist_len[len(h["steps"])] = hist_len.get(len(h["steps"]), 0) + 1
         nontriv_h = False
+        dead = set()          # handles whose defining query the engine itself rejects (or that were never created)
+        nheap = nbase
         for i, (st, m, o) in enumerate(zip(h["steps"], h["meta"], r)):
             im, isp, ms, dom, es = (ch == "1" for ch in v[5 * i: 5 * i + 5])
+            used = {"reg": [st[2]] if m["kind"] == "reg" else [], "where": [st[1]] if m["kind"] == "where" else [],
+                    "joinb": [st[1], st[2]] if m["kind"] == "joinb" else [], "obs": [st[1]] if m["kind"] == "obs" else []}[m["kind"]] \
+                if m["kind"] in ("reg", "where", "joinb", "obs") else []
+            if any(u in dead for u in used):
+                # transforming / registering a frame the engine cannot even compute is outside the property; after it the
+                # registries of implementation (lazy) and oracle (materialised) legitimately differ: stop judging
+                n_skipped += len(h["steps"]) - i
+                break
+            if m["kind"] in ("table", "sql", "where", "joinb"):
+                if "err" in o["oracle"]:
+                    dead.add(nheap)
+                nheap += 1
             n_steps += 1
             n_dom += dom
             hist_kind[m["kind"]] = hist_kind.get(m["kind"], 0) + 1
@@ -732,7 +818,6 @@ def run(ctx: core.Ctx):
                 hist_shape[sh] = hist_shape.get(sh, 0) + 1
                 if "rows" in o["oracle"] and o["oracle"]["rows"]:
                     nontriv_h = True
-            # the engine oracle and the Coq spec must agree, and also the implementation is judged by the engine directly
             same_engine = short_cmp(o["impl"], o["oracle"])
             desc = {"history": [x["text"] for x in h["meta"][: i + 1]], "failing_step": i, "step": m["text"],
                     "impl": short(o["impl"]), "engine_oracle": short(o["oracle"]),
@@ -742,7 +827,15 @@ def run(ctx: core.Ctx):
                 engine_fail.append(desc)
             if not isp or (es and not same_engine):
                 n_dev += 1
-                sig = m["sig"] or ("C13/unexplained:" + m["kind"] + ":" + (o["impl"].get("err") or "result-differs"))
+                # a deviation carries the signature of a known finding only if the history has that finding's shape AND
+                # the faithful Coq model reproduces what the implementation did
+                if m["sig"] == SIG_DUPCTE and "Duplicate CTE name" in o["impl"].get("msg", ""):
+                    sig = SIG_DUPCTE      # crc32 CTE names are not part of the model; judged by the exception itself
+                elif m["sig"] and m["sig"] != SIG_DUPCTE and im:
+                    sig = m["sig"]
+                else:
+                    sig = "C13/unexplained:" + m["kind"] + ":" + (o["impl"].get("err") or "result-differs") + \
+                          (":shape=" + m["sig"].split("/")[1][:24] if m["sig"] else "")
                 hist_sig[sig] = hist_sig.get(sig, 0) + 1
                 ctx.deviation(sig, what_of(sig, o), desc)
             elif not im:
@@ -752,6 +845,9 @@ def run(ctx: core.Ctx):
         n_nontriv += nontriv_h
         if len(ctx.samples) < 4 and len(h["steps"]) >= 4:
             ctx.sample({"history": [x["text"] for x in h["meta"]], "verdict": v})
+    with open(os.path.join(ctx.build, "debug.json"), "w") as f:
+        json.dump({"model_fail": model_fail[:40], "engine_fail": engine_fail[:40], "thm_fail": thm_fail[:40],
+                   "unexplained": [d for d in ctx.deviations if d["signature"].startswith("C13/unexplained")][:40]}, f, indent=1)
     if model_fail:
         ctx.broken("T3:impl-vs-model", f"{len(model_fail)} steps where the implementation agrees with the spec but not with "
                    f"the model; first: {model_fail[0]['step']}", data=model_fail[:5])
@@ -767,6 +863,7 @@ def run(ctx: core.Ctx):
                 "materialised frames); histories are distinct by their step list; non-trivial = the history contains a "
                 "session.sql step over registered views whose engine answer is non-empty",
         "histories": len(kept), "steps_in_theorem_domain": n_dom, "deviating_steps": n_dev,
+        "steps_not_judged_after_use_of_a_frame_the_engine_rejects": n_skipped,
         "histogram_history_length": hist_len, "histogram_step_kind": hist_kind, "histogram_query_shape": hist_shape,
         "histogram_impl_exception": hist_err, "histogram_deviation_signature": hist_sig,
     })
@@ -803,6 +900,13 @@ def what_of(sig, o):
     if sig == SIG_CAPTURE:
         return ("a view built from session.sql keeps the user's CTE names in its chain; a later query over that view which "
                 "defines a CTE with the same name silently replaces the view's inner CTE (wrong rows, no error)")
+    if sig == SIG_UNRESOLVED:
+        return ("once any temp view is registered (or a failed table lookup happened) the schema cache is non-empty and "
+                "sqlglot's qualify can no longer resolve an unqualified column over a real table the cache has not seen: "
+                "session.sql('select a from real_table') raises OptimizeError although the engine answers the query")
+    if sig == SIG_DUPCTE:
+        return ("two SELECTs of one query with the same text (two CTE bodies, or a CTE body and the main SELECT) get the same "
+                "crc32 CTE name when the frame is frozen / emitted: DuckDB rejects the SQL with `Duplicate CTE name`")
     if sig == SIG_STAR:
         return ("session.sql('select * from <real table>') on a table the schema cache has not seen keeps `*` as its only "
                 "column: df.columns == ['*'], createOrReplaceTempView of it raises AttributeError (after registering), "
